@@ -287,7 +287,7 @@ def work(shard):
                 acc["truncated"] = 1
                 break
     elif kind == "games":
-        fam = sweep._game_family(shard["family"], shard)
+        fam = sweep.family_slice(shard)
         for game in fam[shard["lo"]:shard["hi"]]:
             sc = J.SCache(game["players"], game["transition_list"], game["final_states"])
             if not (sc.stopping and all(game["rewards"][s] == 0 for s in sc.absorbing)):
@@ -482,6 +482,11 @@ def plan(ctx):
         fam("U-F", "sum-gens", max_deg=3)
         boards = [(w, l, s, fd) for (w, l) in ((1, 2), (2, 2), (3, 2)) for s in (0, 1) for fd in (False, True)]
         cpu = 2.0
+    fam("U-N", "sum")              # near chains: order of three almost-equal successors must not matter
+    if ctx.thorough:
+        fam("U-R", "sum-gens")     # reward ties through different float sums
+    else:
+        fam("U-R", "sum-gens", stride=3, offset=ctx.seed)
     fam("U-X", "sum")
     for b in boards:
         shards.append({"kind": "board", "board": b, "cpu": cpu, "lo": 0})
